@@ -1135,10 +1135,19 @@ func runC08(r *simrt.Run) {
 		rollbacks++
 	}
 
+	// one run in three confirms blocks with 6-16 KiB of data, so that single commits and rollbacks
+	// move several hundred KiB (one write must stay one write whatever its size)
+	wl.G.BigData = t.Choose(3) == 0
+	if wl.G.BigData {
+		r.Probe("knob-big-data")
+	}
 	for s := 0; s < slots; s++ {
 		t.Span(func() {
 			wl.G.RefreshTokens(p)
 			wl.Ops(p)
+			if wl.G.BigData {
+				t.Loop(4, 5, 8, func() { wl.G.Transfer(p) })
+			}
 			switch t.Pick([]int{6, 4, 2, 2, 1}) {
 			case 0:
 				c.step(p)
